@@ -14,6 +14,8 @@ pub mod timer;
 #[cfg(feature = "pbt")]
 pub mod driver;
 #[cfg(feature = "pbt")]
+pub mod fuzzdec;
+#[cfg(feature = "pbt")]
 pub mod gens;
 #[cfg(feature = "pbt")]
 pub mod props;
